@@ -536,7 +536,7 @@ def fam_flags(rng, sid0, n):
             lines = []
             for nm in names:
                 for k in range(1, len(nm) + 1):
-                    lines.append(("AT" + nm[:k] + rng.choice(["", "?", "=1", "=?", "1"]) + "\n").encode())
+                    lines.append(("AT" + nm[:k] + rng.choice(["", "?", "=1", "=?", "1", "=", "=\r"]) + "\n").encode())
             rng.shuffle(lines)
             line_block(sc, lines[:6])
             if rng.random() < 0.3:
@@ -595,18 +595,19 @@ def fam_codes(rng, sid0, n):
                     if rng.random() < 0.5:
                         sc.wrs(gen.rand_wsched(rng, 80))
                 sc.settle(6000)
-        # every terminal code of an event handler while a line of every kind is in flight (and vice versa)
-        for _ in range(3):
-            ek = rng.choice("rt")
-            sc.hs(1, ek, "e", ret=rng.choice(term))
-            ck = rng.choice("wrxt")
+        # every terminal code of an event handler of each kind, while a line of every kind is in flight (enumerated over the scenarios, not drawn)
+        ek = "rt"[i % 2]
+        ecode = term[(i // 2) % len(term)]
+        for ck in "wrxt":
+            sc.hs(1, ek, "e", ret=ecode)
             sc.hs(0, ck, "c", ret=rng.choice([R_DATA_NEXT, R_NEXT]))
-            sc.hs(0, ck, "c", ret=rng.choice(term))
+            sc.hs(0, ck, "c", ret=term[(i + "wrxt".index(ck)) % len(term)])
+            sc.hs(1, ek, "e", ret=ecode)
             sc.trig(1, ek)
             sc.feed({"w": b"AT+C=1\n", "r": b"AT+C?\n", "x": b"AT+C\n", "t": b"AT+C=?\n"}[ck])
-            sc.svc(rng.randint(0, 12))
-            if rng.random() < 0.5:
-                sc.trig(1, ek)
+            # a second event of the same kind once the line's request type is known to the parser and its handler loop / flush is under way
+            sc.svc(rng.randint(18, 45))
+            sc.trig(1, ek)
             sc.settle(6000)
         out.append(sig(sc, seqs, bool(cmd.vars), bool(cu.vars)))
     return out
@@ -954,4 +955,38 @@ def fam_cut(rng, sid0, n):
             sc.feed(line[cut:]).settle(5000)
             sc.q("busy")
         out.append(sig(sc, tuple(names)))
+    return out
+
+
+# --------------------------------------------------------------------------- C02 / C09: implicit-write commands, their prefixes and their flags
+
+def fam_implicit(rng, sid0, n):
+    out = []
+    for i in range(n):
+        base = rng.choice(["D", "+P", "X1"])
+        ext = [base + "X", base + "XY", base + "A"]
+        imp_disabled = [False, True, False, True][i % 4]
+        grp_disabled = [False, False, True, True][i % 4] and rng.random() < 0.5
+        imp = Cmd(base, hw=True, implicit=True, disable=imp_disabled, only_test=rng.random() < 0.2,
+                  vars=[Var(UINT, 1, RW, None, mem=b"\x01")] if rng.random() < 0.5 else [])
+        others = [Cmd(nm, hw=True, hr=True, hx=True, ht=rng.random() < 0.5, only_test=rng.random() < 0.15,
+                      vars=[Var(UINT, 1, RW, "v", mem=b"\x05")] if rng.random() < 0.5 else []) for nm in ext[:rng.choice([1, 2, 3])]]
+        pos = rng.randrange(len(others) + 1)
+        g0 = others[:pos]
+        g1 = [imp] + others[pos:]
+        groups = ([(False, g0)] if g0 else []) + [(grp_disabled, g1)]
+        sc = Scenario(sid0 + i, groups, qcap=1, bufsize=rng.choice([32, 64]), grain=rng.choice(["step", "compact"]), meta={"family": "fam_implicit"})
+        allc = sc.cmds()
+        for rnd in range(3):
+            lines = []
+            for nm in [base] + [c.name for c in others]:
+                for sfx in ["", "?", "=?", "=1", "7", "=", "hello"]:
+                    lines.append(("AT" + (nm.lower() if rng.random() < 0.3 else nm) + sfx + rng.choice(["\n", "\r\n"])).encode())
+            rng.shuffle(lines)
+            line_block(sc, lines[:10])
+            k = rng.randrange(len(allc))
+            sc.flag_cmd(k, rng.choice(["disable", "only_test"]), rng.random() < 0.5)
+            if rng.random() < 0.5:
+                sc.flag_group(len(sc.groups) - 1, rng.random() < 0.5)
+        out.append(sig(sc, base, imp_disabled, grp_disabled, len(others)))
     return out
